@@ -21,8 +21,9 @@ number, membership in the chain fails and the proof breaks.
 
 Certified (%d of 34): %s.
 
-STILL HYPOTHESES (%d of 34) — no certificate could be produced offline (N − 1 has no sufficiently large factored part
-within the factoring budget; an ECPP certificate would be needed): %s.
+STILL HYPOTHESES (%d of 34): %s.
+(The last four — NIST384p.n, NIST521p.n, BRAINPOOLP384r1.p, BRAINPOOLP512r1.p — needed a parallel ECM search for the factors of
+N − 1, `harness/tools/primecerts/gencert2.py`; sympy's `factorint` alone had given up on them.)
 
 For the curves whose p AND n are both certified the standing hypotheses hold UNCONDITIONALLY (`matches_<curve>_unconditional`):
 only `#E(𝔽_p) = n` remains a hypothesis, and only for recovery / point decoding (C14, C08).
@@ -30,7 +31,7 @@ only `#E(𝔽_p) = n` remains a hypothesis, and only for recovery / point decodi
 namespace NamedPrimes
 open Named Ecdsa
 
-''' % (len(cert), ", ".join(cert), len(open_), ", ".join(open_))
+''' % (len(cert), ", ".join(cert), len(open_), ", ".join(open_) or "none")
 exp=[]
 for k in cert:
     name,kind=k.split('.')
@@ -59,6 +60,20 @@ theorem unconditional_subset : ∀ r ∈ unconditionalCurves, r ∈ Gen.curveTab
 for n in both:
     out+="  · exact ⟨mem_%s, prime_p_%s, prime_n_%s⟩\n"%(n,n,n)
 exp.append("unconditional_subset")
+if not open_:
+    out+='''
+/-- every row of the generated curve table is certified: all 34 numbers are prime, with no hypothesis -/
+theorem all_table_primes : ∀ r ∈ Gen.curveTable, Nat.Prime r.p ∧ Nat.Prime r.n := by
+  intro r hr
+  simp only [Gen.curveTable, List.mem_cons, List.mem_nil_iff, or_false] at hr
+  rcases hr with %s
+''' % " | ".join(["rfl"]*len(names))
+    for n in names:
+        out+="  · exact ⟨prime_p_%s, prime_n_%s⟩\n"%(n,n)
+    out+='''
+theorem table_unconditional : ∀ r ∈ Gen.curveTable, r ∈ unconditionalCurves := by decide +kernel
+'''
+    exp += ["all_table_primes", "table_unconditional"]
 out+='''
 /-- headline, unconditional: on these curves every signature made by `sign_digest` verifies (C01) — no hypothesis about the
 curve is left -/
